@@ -15,11 +15,11 @@ import (
 // C18: overlay filesystem. Layers are fstest.MapFS; the model receives, per layer,
 // the table of what that layer itself answers on the queried universe.
 
-type c18Shape struct{ a, d, e int }
+type c18Shape struct{ a, x, d, e int }
 
-var c18Opens = []string{"a", "d", "d/x", "d/y", "d/y/w", "e", "e/z", ".", "zz"}
-var c18Dirs = []string{".", "a", "d", "e", "d/y", "zz"}
-var c18Globs = []string{"*", "d/*", "*/*", "a", "?", "[", "e/z", "d/x*", "*/*/*"}
+var c18Opens = []string{"a", "x", "d", "d/x", "d/y", "d/y/w", "d-", "d-/x", ".", "zz"}
+var c18Dirs = []string{".", "a", "d", "d-", "d/y", "zz"}
+var c18Globs = []string{"*", "d/*", "*/*", "*/x", "a", "?", "[", "d-/x", "d*/x*", "*/*/*"}
 
 func c18Layer(idx int, sh c18Shape) fstest.MapFS {
 	m := fstest.MapFS{}
@@ -47,8 +47,11 @@ func c18Layer(idx int, sh c18Shape) fstest.MapFS {
 	case 5:
 		file("d/y/w")
 	}
+	if sh.x == 1 {
+		file("x")
+	}
 	if sh.e == 1 {
-		file("e/z")
+		file("d-/x")
 	}
 	return m
 }
@@ -105,39 +108,51 @@ func c18LayerCoq(f fs.FS) string {
 	return fmt.Sprintf("(L [%s] [%s] [%s])", strings.Join(o, "; "), strings.Join(rd, "; "), strings.Join(g, "; "))
 }
 
-func c18Observe(ov fs.FS, opens, dirs, globs []string) Obs {
+type c18Q struct{ kind, arg string }
+
+func (q c18Q) Coq() string {
+	switch q.kind {
+	case "open":
+		return "QOpen " + coqBytes(q.arg)
+	case "readdir":
+		return "QReadDir " + coqBytes(q.arg)
+	}
+	return "QGlob " + coqBytes(q.arg)
+}
+func c18Observe(ov fs.FS, qs []c18Q) Obs {
 	var out []Obs
-	for _, p := range opens {
-		data, isDir, ok := c18Info(ov, p)
-		if ok {
-			out = append(out, L(A("ok"), B(isDir), A(data)))
-		} else {
-			out = append(out, L(A(data)))
+	for _, q := range qs {
+		switch q.kind {
+		case "open":
+			data, isDir, ok := c18Info(ov, q.arg)
+			if ok {
+				out = append(out, L(A("ok"), B(isDir), A(data)))
+			} else {
+				out = append(out, L(A(data)))
+			}
+		case "readdir":
+			es, err := fs.ReadDir(ov, q.arg)
+			if err != nil {
+				out = append(out, L(A("err")))
+				continue
+			}
+			xs := []Obs{A("ok")}
+			for _, e := range es {
+				xs = append(xs, L(A(e.Name()), B(e.IsDir())))
+			}
+			out = append(out, L(xs...))
+		default:
+			ms, err := fs.Glob(ov, q.arg)
+			if err != nil {
+				out = append(out, L(A("err")))
+				continue
+			}
+			xs := []Obs{}
+			for _, m := range ms {
+				xs = append(xs, A(m))
+			}
+			out = append(out, L(xs...))
 		}
-	}
-	for _, d := range dirs {
-		es, err := fs.ReadDir(ov, d)
-		if err != nil {
-			out = append(out, L(A("err")))
-			continue
-		}
-		xs := []Obs{A("ok")}
-		for _, e := range es {
-			xs = append(xs, L(A(e.Name()), B(e.IsDir())))
-		}
-		out = append(out, L(xs...))
-	}
-	for _, pat := range globs {
-		ms, err := fs.Glob(ov, pat)
-		if err != nil {
-			out = append(out, L(A("err")))
-			continue
-		}
-		xs := []Obs{}
-		for _, m := range ms {
-			xs = append(xs, A(m))
-		}
-		out = append(out, L(xs...))
 	}
 	return L(out...)
 }
@@ -145,34 +160,21 @@ func c18Observe(ov fs.FS, opens, dirs, globs []string) Obs {
 func init() { streams["C18"] = runC18 }
 
 func runC18(r *Run) {
-	r.Rule("stacks of 1..3 layers (nil layers included) over shapes a∈{absent,file,emptydir} × d∈{absent,file,emptydir,{x},{x,y},{y/w}} × e∈{absent,{z}}; " +
-		"every stack is queried with 9 Open/Stat/ReadFile names, 6 ReadDir names and 9 glob patterns; a case is non-trivial when some path is present in ≥2 layers or a nil layer is present")
+	r.Rule("stacks of 1..3 layers (nil layers included) over 72 layer shapes: a∈{absent,file,emptydir} × x∈{absent,file} × d∈{absent,file,emptydir,{x},{x,y},{y/w}} × d-∈{absent,{x}}; " +
+		"every stack is one overlay instance queried with a random permutation (plus repeats) of 10 Open/Stat/ReadFile names, 6 ReadDir names and 10 glob patterns, so order- and history-dependence show; " +
+		"a case is non-trivial when some path is present in ≥2 layers or a nil layer is present")
 	var shapes []c18Shape
 	for a := 0; a < 3; a++ {
-		for d := 0; d < 6; d++ {
-			for e := 0; e < 2; e++ {
-				shapes = append(shapes, c18Shape{a, d, e})
+		for x := 0; x < 2; x++ {
+			for d := 0; d < 6; d++ {
+				for e := 0; e < 2; e++ {
+					shapes = append(shapes, c18Shape{a, x, d, e})
+				}
 			}
 		}
 	}
 	nShapes := len(shapes) // index nShapes = nil layer
-	// prelude: queries and one definition per (position, shape)
 	var pre strings.Builder
-	qs := []string{}
-	for _, p := range c18Opens {
-		qs = append(qs, "QOpen "+coqBytes(p))
-	}
-	for _, p := range c18Dirs {
-		qs = append(qs, "QReadDir "+coqBytes(p))
-	}
-	for _, p := range c18Globs {
-		qs = append(qs, "QGlob "+coqBytes(p))
-	}
-	pre.WriteString("Definition qs := [" + strings.Join(qs, "; ") + "].\n")
-	no := len(c18Opens)
-	nd := len(c18Dirs)
-	pre.WriteString("Definition qs_rd := [" + strings.Join(qs[no:no+nd], "; ") + "].\n")
-	pre.WriteString("Definition qs_nord := [" + strings.Join(append(append([]string{}, qs[:no]...), qs[no+nd:]...), "; ") + "].\n")
 	layerFS := make([][]fstest.MapFS, 3)
 	for pos := 0; pos < 3; pos++ {
 		layerFS[pos] = make([]fstest.MapFS, nShapes)
@@ -182,6 +184,16 @@ func runC18(r *Run) {
 		}
 	}
 	r.Prelude = pre.String()
+	var allQ []c18Q
+	for _, p := range c18Opens {
+		allQ = append(allQ, c18Q{"open", p})
+	}
+	for _, p := range c18Dirs {
+		allQ = append(allQ, c18Q{"readdir", p})
+	}
+	for _, p := range c18Globs {
+		allQ = append(allQ, c18Q{"glob", p})
+	}
 
 	emit := func(stack []int) {
 		var fss []fs.FS
@@ -214,13 +226,12 @@ func runC18(r *Run) {
 			desc = append(desc, keys)
 		}
 		nontrivial := hasNil
-		fileOverDir := false
 		for _, n := range present {
 			if n >= 2 {
 				nontrivial = true
 			}
 		}
-		// file-over-directory configurations are counted separately (DESIGN C18)
+		fileOverDir := false
 		var seenFile bool
 		for pos, si := range stack {
 			if si == nShapes {
@@ -247,49 +258,68 @@ func runC18(r *Run) {
 		} else {
 			ov = vuego.NewOverlayFS(fss[0], fss[1:]...)
 		}
+		// random order + a few repeats: one overlay instance answers the whole sequence
+		qs := append([]c18Q{}, allQ...)
+		for i := len(qs) - 1; i > 0; i-- {
+			j := r.Rng.Intn(i + 1)
+			qs[i], qs[j] = qs[j], qs[i]
+		}
+		for k := 0; k < 6; k++ {
+			qs = append(qs, allQ[r.Rng.Intn(len(allQ))])
+		}
 		allNil := true
 		for _, f := range fss {
 			if f != nil {
 				allNil = false
 			}
 		}
+		qdesc := func(qs []c18Q) []string {
+			out := []string{}
+			for _, q := range qs {
+				out = append(out, q.kind+" "+q.arg)
+			}
+			return out
+		}
 		if allNil {
 			// no live layer: ReadDir is observed in a stream of its own (known finding C18-K1)
-			r.Case("overlay", fmt.Sprintf("{| c_layers := [%s]; c_queries := qs_nord |}", strings.Join(names, "; ")),
-				c18Observe(ov, c18Opens, nil, c18Globs), map[string]any{"layers_upper_first": desc,
-					"queries": map[string]any{"open": c18Opens, "glob": c18Globs}}, nil, nontrivial)
-			r.Case("overlay-readdir-no-live-layer", fmt.Sprintf("{| c_layers := [%s]; c_queries := qs_rd |}", strings.Join(names, "; ")),
-				c18Observe(ov, nil, c18Dirs, nil), map[string]any{"layers_upper_first": desc,
-					"queries": map[string]any{"readdir": c18Dirs}}, map[string]string{"live_layers": "0"}, nontrivial)
+			var rd, nord []c18Q
+			for _, q := range qs {
+				if q.kind == "readdir" {
+					rd = append(rd, q)
+				} else {
+					nord = append(nord, q)
+				}
+			}
+			r.Case("overlay", fmt.Sprintf("{| c_layers := [%s]; c_queries := %s |}", strings.Join(names, "; "), coqList(nord, c18Q.Coq)),
+				c18Observe(ov, nord), map[string]any{"layers_upper_first": desc, "queries": qdesc(nord)}, nil, nontrivial)
+			r.Case("overlay-readdir-no-live-layer", fmt.Sprintf("{| c_layers := [%s]; c_queries := %s |}", strings.Join(names, "; "), coqList(rd, c18Q.Coq)),
+				c18Observe(ov, rd), map[string]any{"layers_upper_first": desc, "queries": qdesc(rd)}, map[string]string{"live_layers": "0"}, nontrivial)
 			return
 		}
-		impl := c18Observe(ov, c18Opens, c18Dirs, c18Globs)
-		coq := fmt.Sprintf("{| c_layers := [%s]; c_queries := qs |}", strings.Join(names, "; "))
-		r.Case("overlay", coq, impl, map[string]any{"layers_upper_first": desc,
-			"queries": map[string]any{"open": c18Opens, "readdir": c18Dirs, "glob": c18Globs}}, nil, nontrivial)
+		r.Case("overlay", fmt.Sprintf("{| c_layers := [%s]; c_queries := %s |}", strings.Join(names, "; "), coqList(qs, c18Q.Coq)),
+			c18Observe(ov, qs), map[string]any{"layers_upper_first": desc, "queries": qdesc(qs)}, nil, nontrivial)
 	}
 	for i := 0; i <= nShapes; i++ {
 		emit([]int{i})
 	}
-	for i := 0; i <= nShapes; i++ {
-		for j := 0; j <= nShapes; j++ {
-			emit([]int{i, j})
-		}
-	}
-	n3 := 600
 	if r.Thorough() {
 		for i := 0; i <= nShapes; i++ {
 			for j := 0; j <= nShapes; j++ {
-				for k := 0; k <= nShapes; k++ {
-					emit([]int{i, j, k})
-				}
+				emit([]int{i, j})
 			}
 		}
-		r.extra["exhaustive"] = true
-	} else {
-		for n := 0; n < n3; n++ {
+		for n := 0; n < 20000; n++ {
 			emit([]int{r.Rng.Intn(nShapes + 1), r.Rng.Intn(nShapes + 1), r.Rng.Intn(nShapes + 1)})
 		}
+		r.extra["exhaustive_up_to_layers"] = 2
+	} else {
+		for n := 0; n < 1500; n++ {
+			emit([]int{r.Rng.Intn(nShapes + 1), r.Rng.Intn(nShapes + 1)})
+		}
+		for n := 0; n < 700; n++ {
+			emit([]int{r.Rng.Intn(nShapes + 1), r.Rng.Intn(nShapes + 1), r.Rng.Intn(nShapes + 1)})
+		}
+		emit([]int{nShapes, nShapes})
 	}
 	r.Assume("each layer is an fstest.MapFS; the model takes each layer's own answers on the queried universe as given")
 }
